@@ -11,12 +11,12 @@ ENUM = "exhaustive enumeration of the bounded input space plus property-based te
 CLAIMED = {
  "C01": ("exploration",
          PBT + ": generated expression trees vs an independent exact BigRational evaluator",
-         "Generated expression trees (three generator classes: small literals deep trees, 60-300 digit literals, zero-rich) are evaluated by the tool and by an independent exact evaluator that works on the AST, never on text; value must be equal as a reduced fraction and division by zero must be an error. Exploration is the right level: the input space is unbounded and the oracle is exact.",
+         "Generated expression trees (three generator classes: small literals deep trees, 60-300 digit literals, zero-rich) are evaluated by the tool and by an independent exact evaluator that works on the AST, never on text; value must be equal and handed out in canonical form (lowest terms, positive denominator: what --exact prints and is_integer relies on) and division by zero must be an error. Exploration is the right level: the input space is unbounded and the oracle is exact.",
          "Trusts num::BigRational arithmetic in the harness and the harness's own renderer (minimal parentheses from the documented precedence table). Exponents are integer by construction and the product of |exponents| per path is capped.",
          "DESIGN.md 4/C01"),
  "C05": ("exploration",
          ENUM + ": all 86 definitions vs a hand-written standards table, all 9480 vocabulary words vs an independent segmentation over data.toml names, generated unit expressions vs the stated semantics",
-         "Three complete enumerations (every unit definition against accepted standard scales; every typable [prefix]name word: an accepted reading must be a documented segmentation and both entry points must agree; every bare unit name must denote its own variant) plus generated unit expressions with juxtaposition, blanks, * / ^n compared by a membership search over documented segmentations. The vocabulary is finite, so the first three parts settle it; expressions are sampled.",
+         "Complete enumerations (every unit definition against accepted standard scales, also under the powers -3..3 / -6..6 so a dimension table that is only right at power one is caught; every typable [prefix]name word: an accepted reading must be a documented segmentation and both entry points must agree; every bare unit name must denote its own variant) plus generated unit expressions with juxtaposition, blanks, * / ^n compared by a membership search over documented segmentations. The vocabulary is finite, so the first three parts settle it; expressions are sampled.",
          "Trusts the hand-written standards table (deliberately generous accepted-scale sets) and tools/gen/data.toml as the documentation of names. Words at lexer backtracking positions are excluded from the generated sub-check (known finding), counted in evidence.",
          "DESIGN.md 4/C05"),
  "C06": ("exploration",
@@ -77,7 +77,7 @@ CLAIMED = {
          "DESIGN.md 4/C13"),
  "C14": ("exploration",
          "history-based testing: repeated index builds under varied schedules (threads, CPU pinning, background load) and on-disk/reopen/rebuild sessions, invariant = all sessions agree on every query",
-         "26 (quick) to ~200 (thorough) sessions answer ~2000-10000 queries (every fact's words, single words, prefixes, word pairs); every query must get the same constant in all sessions. Interleavings of tantivy's worker threads are sampled by repetition, pinning and load, not enumerated; this is evidence, not proof.",
+         "26 (quick) to ~200 (thorough) sessions answer ~5400-15000 queries (every fact's words, every single word, every 1-7 character prefix of every word — all terms of the prefix n-gram index — pairs of short prefixes, word pairs); every query must get the same constant in all sessions. Interleavings of tantivy's worker threads are sampled by repetition, pinning and load, not enumerated; this is evidence, not proof.",
          "The schedule of the indexing threads is not owned by the harness.",
          "DESIGN.md 4/C14, 6"),
  "C15": ("fault_enumeration",
@@ -92,17 +92,17 @@ CLAIMED = {
          "DESIGN.md 4/C16"),
  "C17": ("exploration",
          ENUM + ": all registry units and shipped constants, random compounds/rationals/constants, CBOR and JSON round trips with byte-identical re-encoding",
-         "All 86 units: name -> Compound -> CBOR -> back, the written id equals the id documented in data.toml and a CBOR value hand-built from the documented id decodes to the same unit; all 878 shipped constants re-encode and decode equal; random compounds (built from documented ids), 2000-bit rationals (CBOR and JSON) and constants round-trip with identical bytes.",
-         "tools/gen/data.toml is the id registry (the stability oracle).",
+         "All 86 units: name -> Compound -> CBOR -> back, the written id equals the id documented in data.toml and a CBOR value hand-built from the documented id decodes to the same unit; every identifier pinned in harness/data/ids_pinned.json (what data written by the pinned build contains) still decodes to the unit of the same name; all 878 shipped constants re-encode and decode equal; random compounds (built from documented ids), 2000-bit rationals (CBOR and JSON) and constants round-trip with identical bytes.",
+         "Stability oracle: the identifier table committed in /verif (harness/data/ids_pinned.json, taken from the pinned tree and cross-checked against the ids inside the shipped data files); tools/gen/data.toml is only the name registry.",
          "DESIGN.md 4/C17"),
  "C18": ("exploration",
          PBT + " (expressions mixing literals, quantities and fact phrases) plus history-based testing (shuffled query lists against one database instance)",
-         "Results with and without descriptions must be equal; descriptions must be exactly the phrases used (multiset, grouped per result; sub-multiset for failing results), each paired with the constant the phrase returns alone; the value must equal the reference evaluation with phrases replaced by those constants; every query of a history gives the same results in order, in reverse order on a fresh instance and on the long-lived shared instance.",
+         "Results with and without descriptions must be equal; descriptions must be exactly the phrases used (attributed per result in order: a successful result reports exactly its phrases, a failing one a sub-multiset, and a failure takes nothing away from an earlier success), each paired with the constant the phrase returns alone; the value must equal the reference evaluation with phrases replaced by those constants; every query of a history gives the same results in order, in reverse order on a fresh instance and on a long-lived instance; histories include clusters of phrases sharing a long prefix and of phrases differing only in letter case or in the case of an inserted and/or/not.",
          "Within one expression only the multiset of descriptions is required (the evaluator defines the order).",
          "DESIGN.md 4/C18"),
  "C19": ("exploration",
          PBT + ": differential test of the `any` binary against the library, byte-for-byte stdout comparison in default and --exact mode",
-         "Queries from the other generators (values, units, pluralisable units with value 1 / not 1, denominator-only units, errors, facts, multi-result, noise) are run through the binary compiled from /repo/src/bin/any.rs; stdout must equal what the harness prints from library results and the exit status must be 0; the 12-digit rendering must also satisfy C08's oracle.",
+         "Queries from the other generators (values, units, pluralisable units with value 1 / not 1, denominator-only units, errors, facts, multi-result, noise) are run through the binary compiled from /repo/src/bin/any.rs; stdout must equal what the harness prints from library results and the exit status must be 0; an exact fraction must be printed in lowest terms with the sign in the numerator; the 12-digit rendering must also satisfy C08's oracle.",
          "Diagnostics are rendered by the harness with the same codespan-reporting library; colours are disabled in the child (TERM=dumb, NO_COLOR).",
          "DESIGN.md 4/C19"),
 }
